@@ -121,6 +121,10 @@ def one_case(ctx, cid, rng, idx):
         if K["zeros"] and any(v == 0 for v in P.values()):
             c.feature("pixels:stored-zero-values")
         bins = gen.bt_frame(bt, categorical=bool(rng.random() < 0.5))
+        blab = int(rng.integers(5))
+        if blab in (1, 2, 3):
+            bins = bins.set_axis({1: rng.permutation(len(bins)) + 3, 2: np.zeros(len(bins), dtype=int),
+                                  3: [f"b{k_}" for k_ in range(len(bins))]}[blab], axis=0)
         if K["bins_extra"]:
             bins["gc"] = np.round(rng.random(n), 3)
             bins["cov"] = rng.integers(0, 100, size=n)
@@ -147,10 +151,17 @@ def one_case(ctx, cid, rng, idx):
             inp["bin1_id"] = inp["bin1_id"].astype(idt)
             inp["bin2_id"] = inp["bin2_id"].astype(idt)
             c.feature(f"input-id-dtype:{np.dtype(idt).name}")
+        relabel = int(rng.integers(4))
         if form == "df_sorted":
             pixels = inp
         elif form == "df_shuffled":
             pixels = inp.iloc[rng.permutation(len(inp))].reset_index(drop=True)
+        if form in ("df_sorted", "df_shuffled") and relabel and len(inp):
+            # row labels of the caller's frame carry no meaning: shuffled labels, repeated labels, string labels
+            lab = {1: rng.permutation(len(pixels)) + 5, 2: np.zeros(len(pixels), dtype=int),
+                   3: [f"r{k_}" for k_ in range(len(pixels))]}[relabel]
+            pixels = pixels.set_axis(lab, axis=0)
+            c.feature("input-frame:non-default-row-labels")
         elif form == "dict":
             perm = rng.permutation(len(inp)) if rng.random() < 0.5 else np.arange(len(inp))
             pixels = {col: inp[col].to_numpy()[perm] for col in inp.columns}
